@@ -891,6 +891,12 @@ def _oracle_flat(case, impl, model, crash):
         o = _strip_caps(o)
         if exp != o:
             return True, "sequence semantics violated at `%s`: implementation `%s`, reference `%s`" % (l, o[:200], exp[:200])
+    mout = [o for o in model if o != "case"]
+    for l, o, m in zip(lines, out, mout):
+        if l.split()[1] == "sortc" and o.split(" | ")[0] != m.split(" | ")[0]:
+            return False, ("the sort keeps the sequence semantics and the live count on this history, but at `%s` it makes a different number of "
+                           "element temporaries (implementation `%s`, model ledger `%s`: copies made, peak alive); the ledger qsortListT no longer "
+                           "matches the source, the correspondence K no longer validates the model" % (l, o.split(" | ")[0], m.split(" | ")[0]))
     return False, ("the implementation keeps the sequence semantics on this history but its capacity decisions differ from the "
                    "model's growth policy (a skip of the documented shared-growth class happened at a different operation); "
                    "the correspondence K no longer validates the model")
